@@ -4,15 +4,12 @@ from .mir import callee, callee_matches, Prov
 from .ctx import where_of
 
 EXPLANATION = (
-    "(fallback) every top-level statement is evaluated through eval_ast, whose error edge rebuilds the error with "
-    "`error.location.or(statement.location)` — the error's own location first, the failing form's location as the "
-    "fallback; eval_expression_or_definition is reachable from eval only through it; (offender) the unbound-variable "
-    "error is located at the symbol expression and the non-procedure error at the operator expression; (single-origin) "
-    "taint: data built by the macro expander never take the *template's* location (they are located at the macro use "
-    "or keep the matched form's own location), and the census of texts that feed the reader against the location type: "
-    "locations carry no source identity, so positions of library texts are indistinguishable from positions in the "
-    "program; (position) line/column bookkeeping of Lexer::advance (shared with C06-position) and every token is "
-    "located from it.")
+    "(fallback) table of eval_ast: an error keeps its own location, and gets the failing statement's location "
+    'when it has none; who-may-bypass: evaluation is reachable from eval only through it (closed under helper '
+    'extraction); (offender) the unbound-variable, non-procedure and tail-call error rows of the evaluator tables '
+    'carry a location inside the failing form or none; (single-origin) taint: data built by the macro expander '
+    "never take the template's location; census of texts that feed the reader (known finding: library positions); "
+    '(position) token-location table from whole-lexer runs and Lexer::advance bookkeeping.')
 NOT_DECIDED = "that a reported line/column lies inside the textual extent of the failing form (numbers)."
 
 ITP = "interpreter::interpreter::Interpreter::"
@@ -120,12 +117,15 @@ def run(ctx):
                 ctx.report("C15-fallback", "bypass/%s/%s" % (target.rsplit("::", 1)[-1], f.name), "%s is called from %s, bypassing "
                            "the location fallback" % (target, f.name), where_of(f, t))
     for name in ("eval", "eval_program"):
-        f = fb.find(ITP + name)
+        f = fb.find(ITP + name, required=False)
+        if f is None:
+            continue
         fs = [f] + fb.closures_of(f)
         era = [t for g in fs for _, t in g.calls() if callee(t) == ITP + "eval_root_ast"]
         direct = [callee(t) for g in fs for _, t in g.calls() if callee(t) in (eed.name, inner.name, ITP + "eval_expression")]
         ctx.inst("C15-fallback", name + "/uses-eval_root_ast", len(era))
-        if not era or direct:
+        if direct:
+            # (reaching eval_root_ast through a helper is fine: the who-may-call closure above covers every route)
             ctx.report("C15-fallback", name + "/path", "%s evaluates statements without eval_root_ast/eval_ast (%s)" % (name, direct), where_of(f))
     ctx.floor("C15-fallback", 5)
 
@@ -283,5 +283,24 @@ def run(ctx):
         if got != want:
             ctx.report("C15-position", "token-location", "tokens of %r are located %s, expected each at the position after its last "
                        "character: %s" % (text, got, want), where_of(nx))
+    # the same for tokens that follow a construct spanning several lines: a string with a raw line break (and one with the
+    # ESCAPE \n, which is not a line break), a |quoted identifier| with a line break, a comment line
+    text2 = "\"ab\ncd\" x\n\"e\\nf\" y ; c (\n|g\nh| z"
+    marks = [("Identifier", text2.index(" x") + 1), ("Identifier", text2.index(" y") + 1), ("Identifier", len(text2) - 1)]
+    toks2 = lexrun.lex(fb, text2)
+    if toks2 and toks2[-1][0] in ("stuck", "panic"):
+        ctx.undecided("C15-position", "token-location/multi-line", "cannot follow the lexer on the multi-line sample (%s)" % (toks2[-1][1],), where_of(nx))
+    else:
+        def pos_after2(i):
+            line = 1 + text2[:i + 1].count("\n")
+            col = i + 1 - (text2[:i + 1].rfind("\n") + 1) + 1
+            return [line, col]
+        ids = [(t[0], t[1], t[2]) for t in toks2 if t[0] == "Identifier" and t[1] in ("x", "y", "z")]
+        want2 = [("Identifier", n, pos_after2(i)) for (k, i), n in zip(marks, "xyz")]
+        ctx.inst("C15-position", "token-location/multi-line", {"tokens": ids})
+        ctx.oblige(ids == want2)
+        if ids != want2:
+            ctx.report("C15-position", "token-location/multi-line", "after a string / |identifier| / comment that spans lines the tokens x, y, z of %r are "
+                       "located %s, expected %s: every later error of the program would be reported on the wrong line" % (text2, ids, want2), where_of(nx))
     from .c06 import run as _c06  # noqa: F401  (position table itself is decided by C06-position)
     return EXPLANATION, NOT_DECIDED
